@@ -695,9 +695,12 @@ class LogicalLinkController(object):
                 log.debug("can't dispatch PDU %s", rcvd_pdu)
 
     def resolve(self, name):
+        service_discovery = self.sap[1]
+        if service_discovery is None:
+            return None  # the link has been terminated
         if isinstance(name, (bytes, bytearray)):
-            return self.sap[1].resolve(bytes(name))
-        return self.sap[1].resolve(name.encode('latin'))
+            return service_discovery.resolve(bytes(name))
+        return service_discovery.resolve(name.encode('latin'))
 
     def socket(self, socket_type):
         if socket_type == RAW_ACCESS_POINT:
